@@ -17,6 +17,7 @@ func runDBG(cfg *runCfg) error {
 			Input struct {
 				Fed  *FedSpec `json:"federation"`
 				Salt uint32   `json:"salt"`
+				Host bool     `json:"hostile"`
 			} `json:"input"`
 		} `json:"case"`
 	}
@@ -24,16 +25,28 @@ func runDBG(cfg *runCfg) error {
 		return err
 	}
 	in := rp.Case.Input
-	st := genStore(rand.New(rand.NewSource(int64(in.Salt))), in.Fed, false)
+	st := genStore(rand.New(rand.NewSource(int64(in.Salt))), in.Fed, in.Host)
 	fed, err := NewFed(in.Fed, st, rand.New(rand.NewSource(int64(in.Salt))))
 	if err != nil {
 		return err
 	}
 	q := os.Getenv("DBGQ")
+	var qvars map[string]interface{}
+	if q == "" {
+		var rq struct {
+			Query *GenQuery `json:"query"`
+		}
+		_ = readJSON(cfg.Replay, &rq)
+		if rq.Query != nil {
+			q = rq.Query.Text
+			qvars = rq.Query.Vars
+			fmt.Println("query:", q, qvars)
+		}
+	}
 	seen := map[string]int{}
 	for i := 0; i < 30; i++ {
 		fed.Ctl.Calls = nil
-		d, pe, ee := fed.Run(context.Background(), q, "", nil)
+		d, pe, ee := fed.Run(context.Background(), q, "", qvars)
 		b, _ := json.Marshal(d)
 		k := fmt.Sprintf("%s | planErr=%v execErr=%v", b, pe, ee)
 		if seen[k] == 0 {
@@ -45,7 +58,7 @@ func runDBG(cfg *runCfg) error {
 		seen[k]++
 	}
 	fmt.Println(len(seen), "distinct outcomes")
-	mono, _ := fed.Mono(q, "", nil)
+	mono, _ := fed.Mono(q, "", qvars)
 	b, _ := json.Marshal(mono)
 	fmt.Println("mono:", string(b))
 	return nil
